@@ -13,6 +13,15 @@ CHECKS = {
  "C06": dict(cat="proof", tech="Lean 4 theorems on the lexer/error channel of the parser model + exhaustive token-sequence correspondence of real parser vs Lean model",
    text="Theorems: the scanner model is total and never spins on any text; pulling a token never raises anything but the lexer's own error; lexer errors always surface with a file:line:col prefix. The complete parser model (every production, every Python crash site explicit) is compared with the real parser on all <=2 (thorough <=3) token sequences over a 66-token alphabet x 9 prefixes, reduced-alphabet sequences of length 3 (4), token mutants of the corpus and character noise; any escape other than ParseError-with-location is a violation.",
    note="Whole-parser crash-freedom (C06.Full) is stated in Lean but proved only for the lexer side; the rest is differential. RecursionError tolerated. Trusted: Lean kernel, extractor, harness.", ref="§6 C06"),
+ "C03": dict(cat="proof", tech="Lean 4 spec of C99 6.7.5 declarators (denotation) + theorems on the spec + table obligations + spec-vs-code / model-vs-code correspondence",
+   text="Declarator syntax, the inside-out denotation of C99 6.7.5 and the documented AST are a Lean specification (Spec/Decl.lean); theorems: every derivation list is denoted by the declarator the enumerator builds (so enumerating derivation lists enumerates all declarator meanings), names and redundant parentheses; table obligations tie the specifier tables of c_parser.py to the model. The real parser is compared with the specification on all derivation sequences of length <=3 (thorough 4) x 11 contexts and on random longer ones, and with the Lean parser model.",
+   note="The theorem that the parser model returns chainVal(denote D) for all D is not yet proved; the universal claim rests on exhaustive/differential comparison with the Lean spec. Trusted: Lean kernel, Spec/Decl.lean, extractor, harness.", ref="§6 C03"),
+ "C05": dict(cat="proof", tech="Lean 4 spec of C99 6.8 statements incl. switch regrouping + theorems on the regrouping spec + spec-vs-code / model-vs-code correspondence",
+   text="Statement syntax, the documented AST and the switch-block regrouping (written from the property's wording) are a Lean specification (Spec/Stmt.lean); theorems about the regrouping (label-free blocks untouched, statements before the first label stay in order). The real parser is compared with the specification on all statement trees of depth <=2 (thorough 3) over the reduced alphabet and random function bodies with declarations, pragmas and label chains, and with the Lean parser model (which mirrors fix_switch_cases line by line).",
+   note="The refinement theorem fix_switch model = regroup spec for all parser-shaped blocks is not yet proved. Trusted: Lean kernel, Spec/Stmt.lean, extractor, harness.", ref="§6 C05"),
+ "C07": dict(cat="proof", tech="Lean 4 generator+parser model with table obligations (generator precedence = parser precedence) + round-trip search on real code + generator-model correspondence",
+   text="Kernel-checked obligations: the generator's precedence map equals the parser's table and the model's copies equal the code's; the complete generator model (every visit_* method) is compared text-for-text with the real generator on every program of the pool; the property itself (parse.generate.parse = parse, both configurations, second generation identical) is evaluated on the real code for all programs rendered by the Lean specs, the corpus and accepted token mutants.",
+   note="The round-trip theorem over the models is not yet proved; the kernel-checked part is the table obligations. Trusted: Lean kernel, extractor, harness.", ref="§6 C07"),
 }
 NOT_YET = {}
 
